@@ -283,7 +283,14 @@ pub fn configs(tier: Tier, judge: u32, liveness: bool) -> Vec<OutCfg> {
         // a sender that is woken but then fails locally (over-size packet) does not occupy the slot it was
         // woken for: the next parked sender must get the wake-up
         if liveness {
-            for senders in [vec![SK::Q1, SK::Q1Big, SK::Q1], vec![SK::Q1, SK::Q1Big, SK::Ready], vec![SK::Q2Rel, SK::Q1Big, SK::Q1Big, SK::Q1]] {
+            let mut fail_sets = vec![vec![SK::Q1, SK::Q1Big, SK::Q1], vec![SK::Q1, SK::Q1Big, SK::Ready], vec![SK::Q2Rel, SK::Q1Big, SK::Q1Big, SK::Q1]];
+            if role == Role::Client {
+                // a SUBSCRIBE the encoder refuses (over-long filter) after it was woken: its registration is undone
+                // and the wake-up it consumed must still reach the next waiter (seeded change C13_r6)
+                fail_sets.push(vec![SK::Q1, SK::SubBig, SK::Q1]);
+                fail_sets.push(vec![SK::Q1, SK::SubBig, SK::Ready]);
+            }
+            for senders in fail_sets {
                 let mut ep = ep_for(EpCfg::new(ver, role), 1, false);
                 match (ver, role) {
                     (Ver::V5, Role::Client) => ep.client_connack_props.push((0x27, crate::refmqtt::PVal::U32(100))),
